@@ -432,7 +432,9 @@ class C02(Oracle):
     def saturation(self, w, st, culprit):
         """Clause 5: under saturate an out-of-range input is stored as the bound on its own side."""
         sto = st.store
-        if sto is None or sto.raw or sto.route not in ('ctor', 'call', 'set_val', 'setitem'):
+        if sto is None or sto.route not in ('ctor', 'call', 'set_val', 'setitem', 'set_val_raw'):
+            return
+        if sto.raw and sto.route not in ('ctor', 'set_val_raw'):
             return
         val = st.extra.get('val')
         if val is None or V.is_string_spec(val) or val[0] == 'x':
@@ -463,8 +465,11 @@ class C02(Oracle):
         sh, flat = V.exact(val, (s, nw, nf))
         lo, hi = Q.bounds(s, nw)
         sides = []
+        if sto.raw and not all(v.denominator == 1 for v in flat):
+            return
         for v in flat:
-            r = Q.rnd(Q.scale(v, nf), rounding)
+            # (a raw store hands over the code itself: an out-of-range code is an out-of-range input)
+            r = int(v) if sto.raw else Q.rnd(Q.scale(v, nf), rounding)
             sides.append(hi if r > hi else lo if r < lo else None)
         if all(x is None for x in sides):
             return
